@@ -432,6 +432,8 @@ var tiers = map[string]map[string]tierSpec{
 		"C17":     {32000, 2000, 120},
 		"C11":     {7680, 480, 150},
 		"C13":     {4800, 300, 150},
+		"C14":     {4000, 250, 150},
+		"C16":     {4000, 250, 150},
 	},
 	"thorough": {
 		"default": {200000, 400, 1200},
